@@ -432,18 +432,20 @@ def explore_c06(rng, tier, res, deep=False):
     # Nothing against every value of the pool (empty containers and falsy scalars above all), every way of producing
     # Nothing (an empty singular query from @ or $, value() of an empty or multi-node nodelist, a function passing it
     # on), both sides, every operator
-    nothing_forms = ["@.missing", "$.missing", "value(@.missing)", "vf(@.missing)", "value(@.*)", "@.a.missing", "@[99]"]
+    nothing_forms = ["@.missing", "$.missing", "value(@.missing)", "vf(@.missing)", "value(@.*)", "@.a.missing", "@[99]",
+                     # a selector applied to a scalar selects nothing (a Python str is subscriptable, a JSON string is not)
+                     "@.str[0]", "$.str[0]", "@.str[-1]", "$.str[1]", "@.str['0']", "@.num[0]", "$.t[0]", "@.str.a", "$.str[0][0]"]
     for v in CMP_POOL:
         for nf_ in (nothing_forms if tier == "thorough" else rng.sample(nothing_forms, 3)):
             for op in (OPS if tier == "thorough" else rng.sample(OPS, 3)):
-                doc = {"rows": [{"a": gen._copy(v), "b": 1, "c": 2}], "x": gen._copy(v)}
+                doc = {"rows": [{"a": gen._copy(v), "b": 1, "c": 2, "str": "abc", "num": 5}], "x": gen._copy(v), "str": "abc", "t": True}
                 some = rng.choice(["@.a", "$.x", "value(@.a)"])
                 cases.append((f"$.rows[?{some} {op} {nf_}]", doc))
                 cases.append((f"$.rows[?{nf_} {op} {some}]", doc))
     for nf1 in nothing_forms:
         for nf2 in nothing_forms:
             for op in OPS if tier == "thorough" else rng.sample(OPS, 2):
-                cases.append((f"$.rows[?{nf1} {op} {nf2}]", {"rows": [{"a": [], "b": 1, "c": 2}], "x": {}}))
+                cases.append((f"$.rows[?{nf1} {op} {nf2}]", {"rows": [{"a": [], "b": 1, "c": 2, "str": "abc", "num": 5}], "x": {}, "str": "abc", "t": True}))
     # near-miss pairs: a random value against a copy that differs by ONE small edit (a renamed member, a leaf of
     # another kind with a "similar" value, a reordered object, an equal int/float, a dropped element, null vs missing)
     npairs = 4000 if tier == "thorough" else (900 if deep else 350)
